@@ -104,8 +104,8 @@ func (C16M1) Two() (int, error) { return 0, nil }
 func (C16M1) Any() interface{}  { return nil }
 
 // near the fast-call shape, not it: a fixed parameter before `...interface{}`; and the shape itself
-func (C16M1) Mix(a int, rest ...interface{}) interface{} { return a + len(rest) }
-func (C16M1) Var(rest ...interface{}) interface{}        { return len(rest) }
+func (C16M1) Mix(a int, rest ...interface{}) interface{} { return nil }
+func (C16M1) Var(rest ...interface{}) interface{}        { return nil }
 
 type C16M2 struct{ B int }
 
